@@ -38,7 +38,7 @@ pub fn module(r: &mut Rng, allow_unstable: bool) -> (Vec<u8>, AInfo) {
             2 => { if !mems.is_empty() && !allow_unstable { continue; } let m64 = allow_unstable && r.chance(1, 3); let sh = allow_unstable && r.chance(1, 3); let (min, mut max) = limits(r, m64); if sh && max.is_none() { max = Some(min + 1); }
                    if m64 { info.mem64 += 1; } if sh { info.shared += 1; }
                    is.import(&md, &nm, we::EntityType::Memory(we::MemoryType { minimum: min, maximum: max, memory64: m64, shared: sh, page_size_log2: None })); mems.push((m64, sh)); }
-            _ => { let t = r.below(4) as u8; let mu = r.chance(1, 3); is.import(&md, &nm, we::EntityType::Global(we::GlobalType { val_type: vt(t), mutable: mu, shared: false })); globals.push((t, mu, true)); }
+            _ => { let t = *r.pick(&[0u8, 0, 1, 2, 3, 5, 6, 6]); let mu = r.chance(1, 3); is.import(&md, &nm, we::EntityType::Global(we::GlobalType { val_type: vt(t), mutable: mu, shared: false })); globals.push((t, mu, true)); }
         }
         info.n_imports += 1;
     }
